@@ -126,13 +126,18 @@ def token_verdict(s, e, a, b, partial):
     contained = a <= s and e <= b
     if not partial:
         return KEEP if contained else DROP
-    if s < e:
-        return KEEP if (max(s, a) < min(e, b)) else DROP
-    # empty segment under partial matching: kept when strictly inside; on the slice's boundary it
-    # is contained (closed reading) but shares no frame with the slice -> not determined
-    if a < s < b:
+    # partial: "slice_start < ref_end and slice_end > ref_start"
+    naive = a < e and b > s
+    if s < e and a < b:
+        return KEEP if naive else DROP
+    # degenerate: an empty segment and / or an empty or inverted slice.  "Overlap" is not defined for
+    # them; a token that is contained AND passes the overlap test is kept under every reading, one that
+    # fails both is dropped under every reading, anything else is left open.
+    if naive and contained:
         return KEEP
-    return EITHER if contained else DROP
+    if not naive and not contained:
+        return DROP
+    return EITHER
 
 
 def match_optional(items, observed):
